@@ -3,7 +3,7 @@
     instrumentation observed in this process.
 """
 import os, sys, json, time, importlib, traceback, warnings
-from pmv import common, instrument, gen
+from pmv import common, instrument, gen, corpus
 
 def load (pid):
     return importlib.import_module ('pmv.props.' + pid.lower ())
@@ -47,6 +47,8 @@ def run_case (mod, spec):
             )
     except common.Rejected as e:
         res = dict (status = 'discard', reason = 'rejected: ' + str (e) [:80])
+    except corpus.Not_Convertible as e:
+        res = dict (status = 'discard', reason = 'corpus file not expressible for this check: ' + str (e) [:60])
     except Exception as e:
         if common.repo_frames (e):
             key = common.crash_key (e)
